@@ -115,7 +115,7 @@ Qed.
 (* without a CONTAINS statement every procedure child of a module or procedure is reported; with one, exactly those at or above it *)
 Theorem before_contains_spec k cstart eline c : c_hash c = false ->
   (before_contains (contains_line k cstart eline) c = true <->
-   c_proc c = true /\ (k = KMod \/ k = KSmod \/ k = KSub \/ k = KFun) /\ c_sline c <= match cstart with Some x => x | None => eline end).
+   c_proc c = true /\ (k = KMod \/ k = KSmod \/ k = KSub \/ k = KFun) /\ c_sline c < match cstart with Some x => x | None => eline end).
 Proof.
   intro Hh. unfold before_contains, contains_line. rewrite Hh. cbn [negb andb].
   split.
@@ -140,21 +140,21 @@ Proof.
 Qed.
 
 Theorem use_after_implicit_spec pi il us l : 1 <= il ->
-  (In (DUseAfterImplicit l) (check_use pi (Some il) us) <-> l = il - 1 /\ exists u, In u us /\ il <= u_line u).
+  (In (DUseAfterImplicit l) (check_use pi (Some il) us) <-> l = il - 1 /\ exists u, In u us /\ il < u_line u).
 Proof.
   intro H1. unfold check_use. rewrite in_app_iff. split.
   - intros [H|H].
     + apply in_flat_map in H as [u [_ Hu]]. destruct (u_import u); [destruct pi; [contradiction|destruct Hu as [Hu|[]]; discriminate]|].
       destruct (u_known u); [contradiction|destruct Hu as [Hu|[]]; discriminate].
-    + destruct ((il <=? _) && _) eqn:E; [|contradiction]. destruct H as [H|[]]. inversion H; subst. split; [reflexivity|].
-      apply andb_true_iff in E as [E _]. apply Nat.leb_le in E.
-      destruct (Exists_dec (fun u => il <= u_line u) us (fun u => le_dec il (u_line u))) as [Hex|Hno].
+    + destruct ((il <? _) && _) eqn:E; [|contradiction]. destruct H as [H|[]]. inversion H; subst. split; [reflexivity|].
+      apply andb_true_iff in E as [E _]. apply Nat.ltb_lt in E.
+      destruct (Exists_dec (fun u => il < u_line u) us (fun u => lt_dec il (u_line u))) as [Hex|Hno].
       * apply Exists_exists in Hex. exact Hex.
-      * exfalso. assert (fold_left (fun m u => Nat.max m (u_line u)) us 0 <= il - 1).
-        { apply max_line_le; [lia|]. intros u Hu. destruct (le_dec il (u_line u)); [|lia]. exfalso. apply Hno. apply Exists_exists. eauto. }
+      * exfalso. assert (fold_left (fun m u => Nat.max m (u_line u)) us 0 <= il).
+        { apply max_line_le; [lia|]. intros u Hu. destruct (lt_dec il (u_line u)); [|lia]. exfalso. apply Hno. apply Exists_exists. eauto. }
         lia.
   - intros [-> [u [Hu Hle]]]. right.
-    assert (E : (il <=? fold_left (fun m u => Nat.max m (u_line u)) us 0) = true) by (apply Nat.leb_le; etransitivity; [exact Hle|apply max_line_ge; exact Hu]).
+    assert (E : (il <? fold_left (fun m u => Nat.max m (u_line u)) us 0) = true) by (apply Nat.ltb_lt; eapply Nat.lt_le_trans; [exact Hle|apply max_line_ge; exact Hu]).
     rewrite E. destruct us; [contradiction|]. cbn. now left.
 Qed.
 
